@@ -66,12 +66,12 @@ type HistOpts struct {
 // Hist drives a generated history over a world. It is shared by the
 // store-level properties; each property adds its own oracle on top.
 type Hist struct {
-	UploadsDuringSlicing, RotationsDuringSlicing, OverlappedFindMissing, RotationInReleaseWrite int
-	W                                                                                           *World
-	T                                                                                           *rapid.T
-	C                                                                                           *vstats.Case
-	Opt                                                                                         HistOpts
-	Failed                                                                                      map[*Obj]bool
+	UploadsDuringSlicing, RotationsDuringSlicing, OverlappedFindMissing, RotationInReleaseWrite, ParkedFindMissing int
+	W                                                                                                              *World
+	T                                                                                                              *rapid.T
+	C                                                                                                              *vstats.Case
+	Opt                                                                                                            HistOpts
+	Failed                                                                                                         map[*Obj]bool
 	// Counters for non-triviality rules.
 	FailedKeysRead       int
 	HeldAcrossRotation   int
@@ -252,7 +252,30 @@ func (h *Hist) Actions() map[string]func(*rapid.T) {
 					h.FailedKeysRead++
 				}
 			}
-			w.FindMissing(items)
+			// A third of the existence checks run as a thread that parks
+			// before each refresh copy, so that the other actions interleave
+			// with the unlocked copy phases of its second scan.
+			if rapid.IntRange(0, 2).Draw(t, "fmAsThread") == 0 {
+				c.Add("fmThread")
+				p := w.StartFindMissing(items)
+				if p.Parks > 0 {
+					h.ParkedFindMissing++
+				}
+			} else {
+				w.FindMissing(items)
+			}
+			w.Poll()
+		},
+		"fmStep": func(t *rapid.T) {
+			p := w.PendingFindMissing()
+			if p == nil {
+				fallback()
+				return
+			}
+			c.Add("fmStep")
+			rot := w.St.BL.PopFronts
+			_ = rot
+			w.StepFindMissing(p)
 			w.Poll()
 		},
 		"": func(t *rapid.T) {
@@ -592,6 +615,7 @@ func (h *Hist) Quiesce() {
 		h.noteFinalize(before)
 	}
 	w.FinishHolds()
+	w.FinishPendingFM()
 	w.Poll()
 }
 
